@@ -8,7 +8,7 @@
 From Coq Require Import Reals QArith Lra List.
 From SpdVerif Require Import Model.FinSum Model.Hom Model.Hom2 Model.C10_Pyth Proofs.C10_pyth Model.C09_Total Proofs.C09_total Proofs.FinSum_lemmas Proofs.Cx_lemmas Proofs.C09_range Proofs.C09_dip
   Proofs.C09_struct Proofs.C09_exec Gen.HomSrc Proofs.C09_src.
-From SpdVerif Require Import Model.PMParams Gen.PMIntegrand Proofs.C06_defined Proofs.C06_spectrum Proofs.C09_compose.
+From SpdVerif Require Import Model.PMParams Gen.PMIntegrand Proofs.C06_defined Proofs.C06_spectrum Proofs.C09_compose Proofs.C09_grid_tie Proofs.C09_examples Base.GridOps Gen.Grid Proofs.FinSum_morph.
 Local Open Scope R_scope.
 
 (* rate in [0,1] and visibility in [-1,1] at EVERY delay, for every complex array on a square grid with identical axes
@@ -37,8 +37,10 @@ Proof. exact hom_rate_symmetric_zero_sq. Qed.
    and is not proved here; the check validates it numerically to discretisation accuracy on well-sampled grids. *)
 Theorem C09_dip_position_partial : forall n g a t0 gs,
   square_sym n g -> (forall k, (k < n * n)%nat -> gs k = transpose_arr n (separable_phase g a t0) k) ->
+  rsum n (fun s => cnorm2 ROps (a s)) <> 0 ->
+  jsi_norm ROps (n * n) (separable_phase g a t0) <> 0 /\
   (forall tau, hom_rate g (separable_phase g a t0) gs tau None = dip_rate g a (tau - t0)) /\
-  (rsum n (fun s => cnorm2 ROps (a s)) <> 0 -> hom_rate g (separable_phase g a t0) gs t0 None = 0).
+  hom_rate g (separable_phase g a t0) gs t0 None = 0.
 Proof. exact hom_rate_dip_both. Qed.
 
 (* a delay series is the list of the individually computed rates *)
@@ -122,6 +124,13 @@ Theorem C09_twin_array_is_transpose : forall Q S Ssw n g,
   forall k, (k < n * n)%nat -> tabulate (jsa_of Q Ssw) g k = transpose_arr n (tabulate (jsa_of Q S) g) k.
 Proof. exact twin_array_is_transpose. Qed.
 
+(* the grid / index model used above is the one generated from src/utils.rs (Gen/Grid.v): get_2d_indices, get_1d_index, Steps2D::value *)
+Theorem C09_grid_is_generated : forall (g : grid R) (k index cols col row : nat),
+  (grid_ws ROps g k, grid_wi ROps g k) = Grid.steps2d_value Rops (g_x0 g) (g_x1 g) (g_cols g) (g_y0 g) (g_y1 g) (g_rows g) k /\
+  grid_len g = Grid.steps2d_len (g_cols g) (g_rows g) /\
+  FinSum.get_2d_indices index cols = Grid.get_2d_indices index cols /\ FinSum.get_1d_index col row cols = Grid.get_1d_index col row cols.
+Proof. exact (fun g k index cols col row => conj (grid_point_generated g k) (conj (grid_len_generated g) (conj (get_2d_indices_generated index cols) (get_1d_index_generated col row cols)))). Qed.
+
 (* ---- the code paths outside the main model (Model/C09_Total.v): slices of any length, zero norm, empty delay list *)
 (* hom_rate panics (slice index out of bounds) exactly when one of the two slices is shorter than the grid *)
 Theorem C09_total_panic_iff : forall g f gs tau norm,
@@ -175,7 +184,28 @@ Theorem C09_pyth_twin : forall (n : nat) (x0 h : R) (k r m0 : Z),
   hom_rate (axes_grid (pyth_ls n x0 h) (pyth_li n x0 h k r) n) (RC f) (RC gs) (pyth_delay m0 h) None.
 Proof. exact hom_rate_Qpyth_correct. Qed.
 
+(* the executable twin of the total model (run by the check on the edge inputs) stands for the real outcome *)
+Theorem C09_total_exec_twin : forall (g : grid R) (f gs : list (cx Q)) (u : nat -> cx Q) (tau : R) (norm : option Q),
+  (forall k, (k < grid_len g)%nat -> hom_phase g tau k = cmap Q2R (u k)) ->
+  hom_rate_total g (map Q2C f) (map Q2C gs) tau (option_map Q2R norm) = outcome_of_q (hom_rate_total_Q (grid_len g) f gs u norm).
+Proof. exact hom_rate_total_Q_correct. Qed.
+
 (* ---- non-vacuity *)
+Example C09_nonvacuous_symmetric_setup_dip :
+  let g := sym_grid 1 ex_w0 ex_w0 in
+  self_exchange pm_sym_example /\ physical_on pm_sym_example g /\
+  jsi_norm ROps (grid_len g) (tabulate (jsa_of ex_Q pm_sym_example) g) <> 0.
+Proof. exact symmetric_dip_example. Qed.
+
+Example C09_nonvacuous_twin :
+  let S := fun _ _ : R => pm_example in let Ssw := fun _ _ : R => pm_swap pm_example in
+  exchange_tie S Ssw /\ physical_on Ssw (sym_grid 2 1 2).
+Proof. exact twin_example. Qed.
+
+Example C09_nonvacuous_pyth :
+  (1 < 2)%nat /\ (1 : R) <> 0 /\ jsi_norm ROps (2 * 2) (RC ((1, 0) :: (0, 1) :: (0, 0) :: (2, 0) :: nil)%Q) <> 0.
+Proof. exact pyth_example. Qed.
+
 Example C09_nonvacuous_self_exchange : self_exchange pm_sym_example.
 Proof. exact pm_sym_example_self_exchange. Qed.
 
@@ -207,6 +237,8 @@ Print Assumptions C09_symmetric_setup_dip.
 Print Assumptions C09_symmetric_setup_amplitude.
 Print Assumptions C09_setup_is_array_with_twin.
 Print Assumptions C09_twin_array_is_transpose.
+Print Assumptions C09_grid_is_generated.
+Print Assumptions C09_total_exec_twin.
 Print Assumptions C09_total_panic_iff.
 Print Assumptions C09_total_default_norm.
 Print Assumptions C09_total_is_model.
